@@ -331,6 +331,27 @@ class Run:
             self.unsupported.append(f"{contract.qualname}: {e}")
         return []
 
+    def native_standin(self, module, func="scenarios", what="", group=None):
+        """Bounded stand-in that runs on every invocation: the property's native scenario corpus (real generator, generated library driven
+        over loopback fakes) in a fresh interpreter.  A failure that is not a listed known finding is a violation with a concrete input."""
+        from .genlab import run_isolated
+        group = group or f"native.{self.pid}:scenarios"
+        try:
+            f = run_isolated(module, func)
+        except Exception as e:         # noqa
+            self.notes.append(f"native stand-in {module}.{func} crashed: {e!r}"[:1500])
+            self.unsupported.append(f"native stand-in {module}.{func} crashed")
+            return None
+        fails = f["failures"] if isinstance(f, dict) else f
+        cases = f.get("cases", len(fails)) if isinstance(f, dict) else len(fails)
+        kf = {k.get("witness") for k in load_known_findings().get(self.pid, []) if isinstance(k.get("witness"), str)}
+        unexplained = [x for x in fails if not (x.get("known") and x.get("known") in kf)]
+        self.bounded.append({"what": what or f"native scenario corpus {module}.{func}", "cases": cases, "failures": len(fails), "unexplained": unexplained[:4]})
+        self.results.append(Result(group, "open" if unexplained else "discharged", "native", 0.0, "bounded",
+                                   detail=json.dumps(unexplained[:3], default=str)[:1500], group=group))
+        self._native_unexplained = unexplained
+        return f
+
     def assume(self, *texts):
         for t in texts:
             if t not in self.assumptions:
@@ -401,7 +422,9 @@ class Run:
                     continue
             replay = None
             found_input = False
-            if falsifier is not None:
+            if g.startswith("native.") and getattr(self, "_native_unexplained", None):
+                replay, found_input = {"kind": "native", "failures": self._native_unexplained[:6]}, True
+            elif falsifier is not None:
                 try:
                     replay, found_input = falsifier(g, info)
                 except Exception:
